@@ -31,7 +31,9 @@ What is proved here about the model, for all grammars / options / fuel unless sa
                                     terminates and satisfies every clause
 The clauses links_resolve / no_empty_placeholder / root_first / tokens_covered are not proved in general
 (they are false without further hypotheses, see the witnesses); they are decided by the oracle on the
-real code.
+real code.  `Props/C20Links.lean` proves links_resolve and root_first for all grammars under decidable
+hypotheses on the node table that exclude the witnessed shapes (`links_resolve_partial`,
+`root_first_partial`), and the heap-level part of no_empty_placeholder (`no_empty_placeholder_partial`).
 -/
 namespace PP.Diagram
 
